@@ -118,8 +118,17 @@ def generate(rng, tier):
         filt = []
         for i in sel:
             names = [x for x in ALLNAMES if r.chance(1, 4)]
-            filt.append((POSITIONS[i], names))
+            filt.append((POSITIONS[i], names, len(lines)))
             lines.append('filter 0 %s%s' % (hx(POSITIONS[i]), ''.join(' ' + hx(x) for x in names)))
+        if filt and n % 2 == 0:
+            # sections created while a filter is installed, then the filters are replaced: inheritance is decided
+            # when printing, not when a section is created
+            lines.append('parse_buf 0 ' + hx(b'm { k = 3 }\ns { t late { p = 9 u { z = 1.5 } } }\n'))
+            for path, names, _ in list(filt):
+                if r.chance(3, 4):
+                    names2 = [x for x in ALLNAMES if r.chance(1, 4)] + [r.pick([b'k', b'p', b'z', b'q'])]
+                    filt.append((path, names2, len(lines)))     # the later command on a position replaces the earlier
+                    lines.append('filter 0 %s%s' % (hx(path), ''.join(' ' + hx(x) for x in names2)))
         pfs = [p for p in (b'a', b'l', b's|x', b's|y', b'fn', b'm=0|x', b'q', b'n') if r.chance(1, 5)]
         for p in pfs:
             lines.append('printfunc 0 %s 0' % hx(p))
@@ -173,7 +182,10 @@ def oracle(scn, il):
         return [('no-result', scn.id + ': no dump')]
     tree = gen.dump_tree(body[m['dump']])
     st = dict(filters={}, pf=set())
-    for path, names in m['filt']:
+    for path, names, li in m['filt']:
+        # a filter command on a section that did not exist when it was given installed nothing (rc=nosec)
+        if li < len(body) and 'rc=ok' not in body[li]:
+            continue
         pos, _ = locate(tree, path)
         if pos is not None:
             st['filters'][pos] = set(names)
